@@ -125,7 +125,7 @@ func (g *ProgGen) name() string {
 }
 
 var hostileNums = []string{"0", "1", "2", "3", "10", "0.5", "1.5", "7", "100", "0.0"}
-var hostileStrs = []string{"", "a", "0", "abc", "1.5", "Name", "k", "x y", "(", "^a", "é", "NaN", "Inf", "1e400", "0x1", "-1"}
+var hostileStrs = []string{"", "a", "0", "abc", "1.5", "Name", "k", "x y", "(", "^a", "é", "NaN", "Inf", "1e400", "0x1", "-1", "Extra", "N", "Any", "Inner", "true"}
 
 // Expr returns a random, untyped expression.
 func (g *ProgGen) Expr(depth int) Expr {
@@ -224,7 +224,7 @@ func (g *ProgGen) Expr(depth int) Expr {
 			x = &EGroup{X: x}
 		}
 		if r.Intn(2) == 0 {
-			keys := []string{"k", "a", "Name", "Count", "hidden", "Items", "length", "index", "missing"}
+			keys := []string{"k", "a", "Name", "Count", "hidden", "Items", "length", "index", "missing", "Extra", "N", "Any", "Inner", "PP", "Next"}
 			return &EAttr{X: x, Key: &EStr{S: g.pickS(keys)}, Dot: true}
 		}
 		return &EAttr{X: x, Key: g.Expr(d), Dot: false}
